@@ -169,7 +169,12 @@ Proof.
 Qed.
 Lemma bridge_pub_bool v size : gcbor_encode_bool (Z.of_N v) (Z.of_N size) = zres (if (v =? 0)%N then enc_byte 0xF4 size else enc_byte 0xF5 size).
 Proof.
-  first [ unfold gcbor_encode_bool; cbv zeta; change 245 with (Z.of_N 245); change 244 with (Z.of_N 244);
+  first [ (* by conversion: with v = 0 or v = N.pos p every test of the truth value of [value] computes *)
+          destruct v as [|p];
+          [ change (gcbor_encode_bool (Z.of_N 0) (Z.of_N size)) with (g_cbor_encode_byte (Z.of_N 244) (Z.of_N size))
+          | change (gcbor_encode_bool (Z.of_N (N.pos p)) (Z.of_N size)) with (g_cbor_encode_byte (Z.of_N 245) (Z.of_N size)) ];
+          apply bridge_encode_byte
+        | unfold gcbor_encode_bool; cbv zeta; change 245 with (Z.of_N 245); change 244 with (Z.of_N 244);
           rewrite !bridge_encode_byte; unfold nz; destruct (N.eqb_spec v 0) as [->|Hne]; [reflexivity|];
           destruct (Z.eqb_spec (Z.of_N v) 0); [lia|reflexivity]
         | unfold gcbor_encode_bool, fbcbor_encode_bool; rewrite !N2Z.id; reflexivity ].
